@@ -693,6 +693,8 @@ def verify_function(contract, fndef, prefix, ghost_decl=None, module_consts=None
     st.assume(pre)
     ex.entry = st.copy()
     ex.pre_hyps = list(st.pc)
+    # vacuity canary: `requires => False` must NOT be provable (a contradictory precondition would discharge everything)
+    ex.oblige('canary.requires-satisfiable', st.copy(), z3.BoolVal(False), node=fndef, meta={'canary': True})
     outs = ex.block(strip_docstring(fndef.body), st)
     # exits
     for o in outs:
